@@ -359,6 +359,38 @@ for i in range(5):
     env.process(proc(env, i))
 env.run()
 out.append(['simpy', started])
+# conditions of the SimPy layer over several events: order of the value and which failure is reported
+env = Environment()
+evs = [env.event() for _ in range(7)]
+seen = []
+def trig(env):
+    yield env.timeout(1)
+    for i in (3, 0, 6, 1, 5, 2, 4):
+        evs[i].succeed(i)
+def waits(env):
+    v = yield env.all_of(evs)
+    seen.append(['all', [evs.index(e) for e in v.keys()], list(v.values())])
+    w = yield env.any_of(evs)
+    seen.append(['any', [evs.index(e) for e in w.keys()]])
+env.process(trig(env)); env.process(waits(env))
+env.run()
+env2 = Environment()
+bad = [env2.event() for _ in range(5)]
+def failer(env):
+    yield env.timeout(1)
+    for i in (2, 4, 0, 3, 1):
+        bad[i].fail(KeyError(i))
+def catcher(env):
+    try:
+        yield env.all_of(bad)
+    except KeyError as e:
+        seen.append(['first failure', e.args[0]])
+env2.process(failer(env2)); env2.process(catcher(env2))
+try:
+    env2.run()
+except BaseException as e:
+    seen.append(['run raised', type(e).__name__, list(e.args)])
+out.append(['simpy-conditions', seen])
 json.dump(out, open(sys.argv[1], 'w'))
 '''
 
